@@ -226,7 +226,7 @@ def hEpoch : Handler := fun j => do
         | none => if verifyErr.isSome then some ("Population.Verify fails: " ++ verifyErr.getD "", "wf:epoch:verify") else none
     let c01why : String := (c01r.map (·.1)).getD ""
     let c01sig : String := (c01r.map (·.2)).getD ""
-    let c09why : String := if !inputOk then "" else (let q := PopSpec.quotasWhy ap n; if q != "" then q else PopSpec.parentsWhy o p ap)
+    let c09why : String := if !inputOk then "" else (let q := PopSpec.quotasWhy ap n; if q != "" then q else (let q2 := PopSpec.parentsWhy o p ap; if q2 != "" then q2 else PopSpec.expectedWhy ap))
     let c10why : String := if !inputOk then "" else (let q := PopSpec.championWhy bitEq ap a; if q != "" then q else PopSpec.fittestWhy bitEq p ap a)
     let c03why : String := if !inputOk then "" else PopSpec.innovWhy p a
     let structural := a.species.any (fun s => s.orgs.any (·.mutStructBaby))
